@@ -59,6 +59,7 @@ def newWorld (cluster : String) : World :=
   match cluster with
   | "gw" => .gw {}
   | "tk" => .tk {}
+  | "tkw" => .tk {}
   | "gs" => .gs {}
   | "op" => .op {}
   | "up" => .up {}
